@@ -114,7 +114,7 @@ int cmd_gstrf(const case_t *c)
 
     mon_reset();
     mon_enable(1, (uint64_t)cint(c, "pert", 0), (int)cint(c, "pmode", 0), (int)cint(c, "plevel", 1), nprocs);
-    int tasks0 = count_tasks(), fds0 = count_fds();
+    int tasks0 = HX_TSAN ? count_tasks() : count_tasks_settled(1 + hx_extra_threads), fds0 = count_fds();      /* (threads of an earlier case of the batch may still be leaving /proc) */
     double t0 = now_s();
     GSTRF(&opt, &AC, perm_r, &L, &U, &Gstat, &info);
     double t1 = now_s();
@@ -248,7 +248,7 @@ int cmd_gssv(const case_t *c)
     }
     mon_reset();
     mon_enable(1, (uint64_t)cint(c, "pert", 0), (int)cint(c, "pmode", 0), (int)cint(c, "plevel", 1), nprocs);
-    int tasks0 = count_tasks(), fds0 = count_fds();
+    int tasks0 = HX_TSAN ? count_tasks() : count_tasks_settled(1 + hx_extra_threads), fds0 = count_fds();      /* (threads of an earlier case of the batch may still be leaving /proc) */
     double t0 = now_s();
     GSSV(nprocs, &A, perm_c, perm_r, &L, &U, &B, &info);
     double t1 = now_s();
